@@ -53,6 +53,38 @@ CHECKS = {
              "keys (dtype, index, -0.0, None vs NaN) are don't-care; hash collisions not searched.",
         technique="deterministic simulation: seeded store/get/alias-mutation/restart histories vs reference map",
         ref="DESIGN.md section 4 (C25)"),
+    "C20": dict(
+        text="Seeded simulation of operation histories (insert / execute / remove / retrieve / describe / keys by 2-3 "
+             "interleaved clients, user and automatic keys, pipelines built from earlier descriptions, r := f(r)) on the "
+             "real DataModelSpace (Pandas and Polars executors) and the real DBSpace over in-memory SQLite behind a "
+             "simulated DB-API connection, against a reference map with an independent pipeline interpreter; strict "
+             "oracle on fault-free histories; statement-level and mid-statement DB faults and executor aborts with a "
+             "narrowly relaxed oracle. Exploration level: histories and fault points are sampled.",
+        note="Pipelines stay in a fragment where all back ends are exact; DB-fault violations are attributed to the "
+             "failed statement (closed set, all 11 listed as known findings); PostgreSQL/MySQL/BigQuery/Spark not run.",
+        technique="deterministic simulation with fault injection: seeded multi-client histories + DB/executor fault plans vs reference map",
+        ref="DESIGN.md section 4 (C20)"),
+    "C19": dict(
+        text="Seeded simulation of interleaved evaluations (eval, transform, ex, >>, on Pandas and Polars) over a shared "
+             "pool of caller-owned frames and pipelines, mixed with SQL generation/execution and introspection on the same "
+             "operator nodes, with evaluations aborted at chosen executor call-backs and callers mutating results they "
+             "own; after every operation every pool frame is compared with its creation snapshot (values, dtypes, columns, "
+             "index) and every result with the first result of the same identity; a sample is re-run under another "
+             "PYTHONHASHSEED in a fresh interpreter. Exploration level.",
+        note="Program space sampled through the workload generator; re-evaluation compared as column set + row multiset; "
+             "Polars thread pool pinned to one thread.",
+        technique="deterministic simulation: seeded interleavings of evaluations with abort-at-callback faults, snapshot invariants, cross-hash-seed replay",
+        ref="DESIGN.md section 4 (C19)"),
+    "C18": dict(
+        text="The environment's free choices (row order of every input, Pandas index labelling, SQLite load order / "
+             "reverse_unordered_selects / secondary indexes / automatic_index) are decided by a seeded scheduler; every "
+             "prefix of a generated pipeline is evaluated on Pandas, Polars and SQLite under the identity schedule and "
+             "under K seeded schedules and must give the same row multiset; prefixes ending in order_rows are checked "
+             "against a reference sort (sortedness, sub-multiset, exactly the first `limit` rows). Exploration level.",
+        note="Only orderings that are total within each partition are judged (checked per backend at run time); a backend "
+             "that raises under the identity schedule is skipped; exact arithmetic by construction.",
+        technique="deterministic simulation: seeded schedules of environment-chosen order/index/scan order vs identity schedule, reference sort",
+        ref="DESIGN.md section 4 (C18)"),
 }
 
 
